@@ -3,6 +3,7 @@ import GqlVerif.Proofs.C01EndToEnd
 import GqlVerif.Proofs.C01AbstractI
 import GqlVerif.Proofs.C01RecursiveE
 import GqlVerif.Proofs.C01RecursiveV
+import GqlVerif.Proofs.C01Rust
 open GqlVerif.C03
 #print axioms ok_iff_accepts
 #print axioms null_at_non_null_rejected
@@ -41,3 +42,9 @@ open GqlVerif.C03
 #print axioms GqlVerif.C01.E2E.recfragment_precise_iff
 #print axioms GqlVerif.C01.E2E.recfragment_precise
 #print axioms GqlVerif.C01.E2E.conformsLooseR_stable
+-- under `normalization = rust` (Proofs/C01Rust.lean)
+#print axioms GqlVerif.C01.E2E.transfer_okB
+#print axioms GqlVerif.C01.E2E.tree_precise_iff_rust
+#print axioms GqlVerif.C01.E2E.variant_precise_iff_rust
+#print axioms GqlVerif.C01.E2E.fragment_precise_iff_rust
+#print axioms GqlVerif.C01.E2E.recfragment_precise_iff_rust
